@@ -272,11 +272,20 @@ def run_case(case, res):
             import shutil as _sh
             import tempfile as _tf
 
+            # templates / callbacks that spell out the default rendering
+            etempl = '{from_id}-- "{to_node.kind}" -->{to_id}' if typed else "{from_id} --> {to_id}"
+
+            def efunc(from_id, from_node, to_id, to_node):
+                return etempl.format(from_id=from_id, from_node=from_node, to_id=to_id, to_node=to_node)
+
             fp0 = io.StringIO()
             t.to_mermaid_flowchart(fp0)
             n0, e0, r0 = parse_mermaid(fp0.getvalue())
             for kwm in ({"as_markdown": False}, {"title": False}, {"title": "My title", "direction": "LR"}, {"headers": ["%% a header"]},
-                        {"node_mapper": "{node.name}"}, {"unique_nodes": False, "as_markdown": False, "title": "x"}):
+                        {"node_mapper": "{node.name}"}, {"unique_nodes": False, "as_markdown": False, "title": "x"},
+                        {"edge_mapper": etempl}, {"node_mapper": "{node.name}", "edge_mapper": etempl},
+                        {"node_mapper": lambda node: node.name, "edge_mapper": etempl},
+                        {"node_mapper": "{node.name}", "edge_mapper": efunc}):
                 fpv = io.StringIO()
                 r = attempt(lambda: t.to_mermaid_flowchart(fpv, **kwm))
                 res.count("mermaid_option_variants")
